@@ -161,6 +161,12 @@ def check(ctx):
   r5(ctx)
   r6(ctx)
   load_write_repairs(ctx)
+  from . import c12 as _c12, c05 as _c05
+  ctx.rule('C12.R2', 'shared with C12: a request deferred until the balancer is open is dispatched only if its deadline has not fired by then (its drained stack would never release the member: '
+                     'a phantom unit of load that skews every later choice)')
+  _c12.r2(ctx)
+  ctx.rule('C05.R2', 'shared with C05: an endpoint that is already a member is never added again (a second node for it splits its load over two heap entries: the member looks less loaded than it is)')
+  _c05.r2(ctx)
   from . import c04
   ctx.rule('C04.R2', 'shared with C04: the balancer releases the member (load decrement, heap repair) before it forwards the response upward -- forwarding can re-enter the balancer')
   c04.r1_r2(ctx)
